@@ -254,10 +254,12 @@ impl Recorder {
         let res = catch_unwind(AssertUnwindSafe(|| {
             let a = format!("{:?}", b);
             let p = format!("{:#?}", b);
-            if a == p {
+            // the caller's width / precision / alignment are not the plan's business either
+            let others = [format!("{:.2?}", b), format!("{:40?}", b), format!("{:<3.0?}", b), format!("{:>#12.5?}", b)];
+            if a == p && others.iter().all(|o| *o == a) {
                 a
             } else {
-                format!("<<Debug and pretty Debug differ>>\n{}\n{}", a, p)
+                format!("<<Debug texts differ between format specs>>\n{}\n{}\n{}", a, p, others.join("\n"))
             }
         }));
         match res {
